@@ -18,6 +18,7 @@
 #include "hcommon.h"
 #include <algorithm>
 #include <iostream>
+#include <chrono>
 using namespace SimTK;
 
 static Vec3 rv(vh::Rng& r, double s = 1) { return Vec3(r.range(-s, s), r.range(-s, s), r.range(-s, s)); }
@@ -73,10 +74,12 @@ static void runCase(uint64_t caseSeed) {
     if (std::getenv("C11_TRACE")) std::fprintf(stderr, "case %llu\n", (unsigned long long)caseSeed);
     const int scn = r.below(6);
     const int integ = r.below(NINTEG);
-    // accuracies 1e-3 .. 1e-8, weighted towards those where the bounds bite; first-order methods 1e-4 .. 1e-7
+    // accuracies 1e-3 .. 1e-8, weighted towards those where the bounds bite; first-order methods 1e-4 .. 1e-6
     static const int ACC_GENERAL[12] = {3, 4, 5, 5, 6, 6, 6, 7, 7, 7, 8, 8};
-    static const int ACC_FIRST[8] = {4, 5, 5, 6, 6, 6, 7, 7};
-    int accExp = integ >= 6 ? ACC_FIRST[r.below(8)] : ACC_GENERAL[r.below(12)];
+    static const int ACC_FIRST[5] = {4, 5, 5, 6, 6};
+    int accExp = integ >= 6 ? ACC_FIRST[r.below(5)] : ACC_GENERAL[r.below(12)];
+    if (integ == 3 && accExp > 6) accExp = 6;                       // RungeKutta2 below 1e-6 costs up to seconds per trajectory
+    const int accExp2Max = integ >= 6 ? 6 : integ == 3 ? 7 : 8;     // tightest accuracy affordable for the second run
     const double acc = std::pow(10.0, -accExp);
     const bool floating = scn == 2;
     const int nb = (scn >= 4) ? 1 + r.below(2) : 1 + r.below(5);
@@ -170,18 +173,22 @@ static void runCase(uint64_t caseSeed) {
             M.tags.push_back("force.LinearBushing.damped");
         }
     }
-    ContactTrackerSubsystem* tracker = nullptr; CompliantContactSubsystem* contact = nullptr;
+    ContactTrackerSubsystem* tracker = nullptr; CompliantContactSubsystem* contact = nullptr; bool contactHigh = false;
     if (scn == 5) {
         // spheres (body origin = centre) falling on the half-space y < 0; Hunt-Crossley dissipation, no friction
         tracker = new ContactTrackerSubsystem(sys); contact = new CompliantContactSubsystem(sys, *tracker);
         contact->setTrackDissipatedEnergy(true);
         Force::UniformGravity(M.forces, matter, Vec3(0, -r.range(4, 10), 0)); M.tags.push_back("force.UniformGravity");
+        // dissipation classes: low (separation speeds here stay far below 1/(1.5 c) = 13 m/s) / high (the Hertz "yanking"
+        // branch can be taken: known accounting defect, own key, see notes/C11.md)
+        contactHigh = r.coin();
+        const double cLo = contactHigh ? 0.4 : 0.01, cHi = contactHigh ? 0.9 : 0.05;
         matter.Ground().updBody().addContactSurface(Transform(Rotation(-Pi / 2, ZAxis), Vec3(0)),
-            ContactSurface(ContactGeometry::HalfSpace(), ContactMaterial(r.range(2e3, 2e4), r.range(0.1, 0.6), 0, 0, 0)));
+            ContactSurface(ContactGeometry::HalfSpace(), ContactMaterial(r.range(2e5, 2e6), r.range(cLo, cHi), 0, 0, 0)));
         for (int i = 1; i <= nb; ++i)
             M.bodies[i].updBody().addContactSurface(Transform(),
-                ContactSurface(ContactGeometry::Sphere(r.range(0.2, 0.4)), ContactMaterial(r.range(2e3, 2e4), r.range(0.1, 0.6), 0, 0, 0)));
-        M.tags.push_back("force.CompliantContact.HuntCrossley");
+                ContactSurface(ContactGeometry::Sphere(r.range(0.2, 0.4)), ContactMaterial(r.range(2e5, 2e6), r.range(cLo, cHi), 0, 0, 0)));
+        M.tags.push_back(std::string("force.CompliantContact.HuntCrossley.") + (contactHigh ? "highDissipation" : "lowDissipation"));
     }
     // ---- state
     State s = sys.realizeTopology();
@@ -284,7 +291,7 @@ static void runCase(uint64_t caseSeed) {
     Traj tr;
     if (ncons < 0) tr.fail = "projectFailed"; else runSim(acc, tr, true);
     // second run of the SAME problem at accuracy/100 (conservative scenarios): the drift must come down with the accuracy
-    Traj tr2; const bool second = tr.fail.empty() && scn <= 2 && accExp <= 6;
+    Traj tr2; const bool second = tr.fail.empty() && scn <= 2 && accExp + 2 <= accExp2Max;
     if (second) runSim(acc * 1e-2, tr2, false);
     const bool failed = !tr.fail.empty(); const std::string failWhat = tr.fail;
     std::vector<double>&E = tr.E, &KEv = tr.KE, &PEv = tr.PE, &Dv = tr.D; std::vector<SpatialVec>& Pv = tr.P;
@@ -389,7 +396,11 @@ static void runCase(uint64_t caseSeed) {
     if (scn >= 4) {
         double drift = 0, up = 0;
         for (size_t i = 0; i < E.size(); ++i) { drift = std::max(drift, std::abs(E[i] + Dv[i] - E[0] - Dv[0])); if (i) up = std::max(up, Dv[i - 1] - Dv[i]); }
-        judge(M_ACCOUNT, "energy_plus_dissipated_constant", scn == 4 ? "traj.bushing.account." : "traj.contact.account.", drift / (acc * T * scale));
+        if (scn == 5 && contactHigh) {
+            const double C = std::max(MEASURED[integ][M_ACCOUNT][accExp - 3], 1.0);
+            vh::P("energy_plus_dissipated_constant", "traj.contact.account.highDissipation", drift / (acc * T * scale) / (10 * C), 1);
+        } else
+            judge(M_ACCOUNT, "energy_plus_dissipated_constant", scn == 4 ? "traj.bushing.account." : "traj.contact.account.", drift / (acc * T * scale));
         vh::P("dissipated_energy_nondecreasing", std::string(scn == 4 ? "traj.bushing.monotone." : "traj.contact.monotone.") + IN + ACC, up / (acc * T * scale), 1e-6);
     }
 }
@@ -407,7 +418,11 @@ int main(int argc, char** argv) {
             return 0;
         }
         vh::Rng top(a.seed * 1000003ull + 1111);
-        for (long c = 0; c < a.n; ++c) runCase(top.next() >> 1);
+        for (long c = 0; c < a.n; ++c) {
+            auto t0 = std::chrono::steady_clock::now();
+            runCase(top.next() >> 1);
+            if (std::getenv("C11_TIME")) std::fprintf(stderr, "ms %.1f\n", std::chrono::duration<double, std::milli>(std::chrono::steady_clock::now() - t0).count());
+        }
         if (a.n >= 200) {
             // coverage record: every integrator must have been judged by bounds that bite (see `uninformative.*` tags)
             vh::I("coverage").s(std::to_string((unsigned long long)a.seed)).i(a.n).emit();
